@@ -1,1 +1,81 @@
-From TL Require Import Base.Base.
+(* C20 - The Rust embedding API mirrors the Lisp semantics.                  *)
+(* Statements only; the proofs are in Proofs/Heap.v.  The model of the API is  *)
+(* Model/Api.v: objects are mutable cells with identity in a heap, registers    *)
+(* hold object handles, symbols have binding stacks of handles.                 *)
+From TL Require Import Base.Base Model.Reader Model.Printer Model.Api.
+From TL Require Import Proofs.Heap.
+Local Open Scope list_scope.
+
+(* symbol operations (set, set_scope, unset, get, boundp) on an ordinary       *)
+(* symbol: the symbol's stack moves exactly as a list stack, every other        *)
+(* symbol's stack is untouched, the heap is not written, results agree.         *)
+(* By induction this holds under every sequence of calls.                       *)
+Theorem C20_symbol_api_is_a_stack : forall w s d o,
+  let i := reg w s in
+  is_sym (hp w) i = true -> is_const_sym (hp w) i = false -> d <> s ->
+  let w' := fst (step_op w (op_of s d w o)) in
+  stack_of w' i = fst (stack_step (stack_of w i) (lift_v w o)) /\
+  (forall j, j <> i -> stack_of w' j = stack_of w j) /\
+  hp w' = hp w /\
+  match snd (stack_step (stack_of w i) (lift_v w o)), snd (step_op w (op_of s d w o)) with
+  | SOk, RUnit | SFail, RErr => True
+  | SVal v, RUnit => reg w' d = v
+  | SBool b, RBool b' => b = b'
+  | _, _ => False
+  end.
+Proof. exact symbol_op_is_stack_op. Qed.
+Theorem C20_constant_symbol_rejects : forall w s a,
+  is_const_sym (hp w) (reg w s) = true ->
+  step_op w (OSet s a) = (w, RErr) /\ step_op w (OSetScope s a) = (w, RErr).
+Proof. exact constant_symbol_rejects. Qed.
+
+(* conversions round-trip exactly and reject wrong types *)
+Theorem C20_int_roundtrip : forall w z d, snd (step_op (fst (step_op w (OInt z d))) (OToInt d)) = RInt z.
+Proof. exact int_roundtrip. Qed.
+Theorem C20_string_roundtrip : forall w s d, snd (step_op (fst (step_op w (OStr s d))) (OToStr d)) = RStr s.
+Proof. exact str_roundtrip. Qed.
+Theorem C20_wrong_type_rejected : forall w s d,
+  snd (step_op (fst (step_op w (OStr s d))) (OToInt d)) = RErr /\
+  snd (step_op (fst (step_op w (OStr s d))) (OToFlt d)) = RErr.
+Proof. exact wrong_type_rejected. Qed.
+
+(* object-level list operations with sharing: deep_copy writes no existing     *)
+(* cell; push writes exactly one existing cell, the empty-list object at the     *)
+(* end of the destination; append copies its argument and writes exactly one     *)
+(* cell of the destination; every object that does not reach the written cell    *)
+(* reads the same afterwards                                                     *)
+Theorem C20_deep_copy_is_fresh : forall h i h' r,
+  h_deep_copy h i = Ok (h', r) -> same_below (hnext h) h h' /\ (hnext h <= hnext h')%positive.
+Proof. exact deep_copy_fresh. Qed.
+Theorem C20_push_writes_end_cell : forall h a v h',
+  h_push h a v = Ok h' -> exists w, h_null h w = true /\ written_one (hnext h) w h h'.
+Proof. exact push_writes_end_cell. Qed.
+Theorem C20_append_writes_one_cell : forall h a v h',
+  h_append h a v = Ok h' -> exists w, written_one (hnext h) w h h'.
+Proof. exact append_writes_one_cell. Qed.
+Theorem C20_unrelated_objects_unchanged : forall fuel h h' n w i,
+  written_one n w h h' -> avoids fuel h n w i = true -> abs fuel h' i = abs fuel h i.
+Proof. exact abs_unchanged. Qed.
+
+Print Assumptions C20_symbol_api_is_a_stack. Print Assumptions C20_constant_symbol_rejects.
+Print Assumptions C20_int_roundtrip. Print Assumptions C20_string_roundtrip.
+Print Assumptions C20_wrong_type_rejected. Print Assumptions C20_deep_copy_is_fresh.
+Print Assumptions C20_push_writes_end_cell. Print Assumptions C20_append_writes_one_cell.
+Print Assumptions C20_unrelated_objects_unchanged.
+
+(* non-vacuity: b = nil; b.append(a); a.push(x) leaves b unchanged (D28 fixed); *)
+(* push on the cdr of a list shows through the list (same object)                *)
+Example C20_ex :
+  run_ops init_world
+    [OInt 1 1; ONil 2; OCons 1 2 3;     (* r3 = (1) *)
+     ONil 4; OAppend 4 3;                 (* r4 = nil; r4.append(r3) *)
+     OInt 2 5; OPush 3 5;                 (* r3.push(2) *)
+     OShow 3; OShow 4;
+     OCdr 3 6; OInt 3 7; OPush 6 7; OShow 3]
+  = [RUnit; RUnit; RUnit; RUnit; RUnit; RUnit; RUnit;
+     RVal (of_list [Int 1; Int 2] Nil); RVal (of_list [Int 1] Nil);
+     RUnit; RUnit; RUnit; RVal (of_list [Int 1; Int 2; Int 3] Nil)].
+Proof. vm_compute. reflexivity. Qed.
+
+Check C20_append_writes_one_cell : forall h a v h',
+  h_append h a v = Ok h' -> exists w, written_one (hnext h) w h h'.
